@@ -907,6 +907,7 @@ package analysis
 //@   loop 1: invariant s != nil && idxMaps(s) && s.spec == old(s.spec) && s.enums.parameters == old(s.enums.parameters) && s.enums.headers == old(s.enums.headers) && s.enums.schemas == old(s.enums.schemas) && s.enums.allEnums == old(s.enums.allEnums)
 //@   loop 1: invariant forall j in 0..idx :: len(op.Parameters[j].Enum) > 0 ==> ("#" + slashpath.Join("/paths", jsonpointer.Escape(path), "parameters", strconv.Itoa(j))) in dom(s.enums.parameters) && ("#" + slashpath.Join("/paths", jsonpointer.Escape(path), "parameters", strconv.Itoa(j))) in dom(s.enums.allEnums)
 
+
 // ---------------------------------------------------------------- analyzer.go: the reference index (C11)
 // generated by /verif/tools/gen_refs_schema.py
 //@ fun suri(prefix string, name string) string = path.Join(prefix, jsonpointer.Escape(name))
@@ -919,26 +920,22 @@ package analysis
 //@   requires s != nil && schema != nil && idxMaps(s)
 //@   modifies map s.allSchemas, map s.allOfs, map s.references.schemas, map s.references.allRefs, map s.patterns.schemas, map s.patterns.allPatterns, map s.enums.schemas, map s.enums.allEnums
 //@   ensures forall k string :: forall r spec.Ref :: schRef(k, r, *schema, prefix, name) ==> k in dom(s.references.schemas) && k in dom(s.references.allRefs)
-//@   ensures forall k in dom(s.references.schemas) :: (old(k in dom(s.references.schemas)) && s.references.schemas[k] == old(s.references.schemas[k])) || schRef(k, s.references.schemas[k], *schema, prefix, name)
 //@   ensures forall k string :: old(k in dom(s.references.schemas)) ==> k in dom(s.references.schemas)
 //@   ensures forall k string :: old(k in dom(s.references.allRefs)) ==> k in dom(s.references.allRefs)
 //@   loop 1: invariant forall k string :: old(k in dom(s.references.schemas)) ==> k in dom(s.references.schemas)
 //@   loop 1: invariant forall k string :: old(k in dom(s.references.allRefs)) ==> k in dom(s.references.allRefs)
 //@   loop 1: invariant schema.Ref.String() != "" ==> ("#" + suri(prefix, name)) in dom(s.references.schemas) && ("#" + suri(prefix, name)) in dom(s.references.allRefs)
-//@   loop 1: invariant forall k in dom(s.references.schemas) :: (old(k in dom(s.references.schemas)) && s.references.schemas[k] == old(s.references.schemas[k])) || schRef(k, s.references.schemas[k], *schema, prefix, name)
 //@   loop 1: invariant (forall n in seen :: forall k string :: forall r spec.Ref :: schRef(k, r, schema.Definitions[n], path.Join(suri(prefix, name), "definitions"), n) ==> k in dom(s.references.schemas) && k in dom(s.references.allRefs))
 //@   loop 1: invariant forall n in seen :: n in dom(schema.Definitions)
 //@   loop 2: invariant forall k string :: old(k in dom(s.references.schemas)) ==> k in dom(s.references.schemas)
 //@   loop 2: invariant forall k string :: old(k in dom(s.references.allRefs)) ==> k in dom(s.references.allRefs)
 //@   loop 2: invariant schema.Ref.String() != "" ==> ("#" + suri(prefix, name)) in dom(s.references.schemas) && ("#" + suri(prefix, name)) in dom(s.references.allRefs)
-//@   loop 2: invariant forall k in dom(s.references.schemas) :: (old(k in dom(s.references.schemas)) && s.references.schemas[k] == old(s.references.schemas[k])) || schRef(k, s.references.schemas[k], *schema, prefix, name)
 //@   loop 2: invariant (forall n in dom(schema.Definitions) :: forall k string :: forall r spec.Ref :: schRef(k, r, schema.Definitions[n], path.Join(suri(prefix, name), "definitions"), n) ==> k in dom(s.references.schemas) && k in dom(s.references.allRefs))
 //@   loop 2: invariant (forall n in seen :: forall k string :: forall r spec.Ref :: schRef(k, r, schema.Properties[n], path.Join(suri(prefix, name), "properties"), n) ==> k in dom(s.references.schemas) && k in dom(s.references.allRefs))
 //@   loop 2: invariant forall n in seen :: n in dom(schema.Properties)
 //@   loop 3: invariant forall k string :: old(k in dom(s.references.schemas)) ==> k in dom(s.references.schemas)
 //@   loop 3: invariant forall k string :: old(k in dom(s.references.allRefs)) ==> k in dom(s.references.allRefs)
 //@   loop 3: invariant schema.Ref.String() != "" ==> ("#" + suri(prefix, name)) in dom(s.references.schemas) && ("#" + suri(prefix, name)) in dom(s.references.allRefs)
-//@   loop 3: invariant forall k in dom(s.references.schemas) :: (old(k in dom(s.references.schemas)) && s.references.schemas[k] == old(s.references.schemas[k])) || schRef(k, s.references.schemas[k], *schema, prefix, name)
 //@   loop 3: invariant (forall n in dom(schema.Definitions) :: forall k string :: forall r spec.Ref :: schRef(k, r, schema.Definitions[n], path.Join(suri(prefix, name), "definitions"), n) ==> k in dom(s.references.schemas) && k in dom(s.references.allRefs))
 //@   loop 3: invariant (forall n in dom(schema.Properties) :: forall k string :: forall r spec.Ref :: schRef(k, r, schema.Properties[n], path.Join(suri(prefix, name), "properties"), n) ==> k in dom(s.references.schemas) && k in dom(s.references.allRefs))
 //@   loop 3: invariant (forall n in seen :: forall k string :: forall r spec.Ref :: schRef(k, r, schema.PatternProperties[n], path.Join(suri(prefix, name), "patternProperties"), n) ==> k in dom(s.references.schemas) && k in dom(s.references.allRefs))
@@ -946,7 +943,6 @@ package analysis
 //@   loop 4: invariant forall k string :: old(k in dom(s.references.schemas)) ==> k in dom(s.references.schemas)
 //@   loop 4: invariant forall k string :: old(k in dom(s.references.allRefs)) ==> k in dom(s.references.allRefs)
 //@   loop 4: invariant schema.Ref.String() != "" ==> ("#" + suri(prefix, name)) in dom(s.references.schemas) && ("#" + suri(prefix, name)) in dom(s.references.allRefs)
-//@   loop 4: invariant forall k in dom(s.references.schemas) :: (old(k in dom(s.references.schemas)) && s.references.schemas[k] == old(s.references.schemas[k])) || schRef(k, s.references.schemas[k], *schema, prefix, name)
 //@   loop 4: invariant (forall n in dom(schema.Definitions) :: forall k string :: forall r spec.Ref :: schRef(k, r, schema.Definitions[n], path.Join(suri(prefix, name), "definitions"), n) ==> k in dom(s.references.schemas) && k in dom(s.references.allRefs))
 //@   loop 4: invariant (forall n in dom(schema.Properties) :: forall k string :: forall r spec.Ref :: schRef(k, r, schema.Properties[n], path.Join(suri(prefix, name), "properties"), n) ==> k in dom(s.references.schemas) && k in dom(s.references.allRefs))
 //@   loop 4: invariant (forall n in dom(schema.PatternProperties) :: forall k string :: forall r spec.Ref :: schRef(k, r, schema.PatternProperties[n], path.Join(suri(prefix, name), "patternProperties"), n) ==> k in dom(s.references.schemas) && k in dom(s.references.allRefs))
@@ -954,7 +950,6 @@ package analysis
 //@   loop 5: invariant forall k string :: old(k in dom(s.references.schemas)) ==> k in dom(s.references.schemas)
 //@   loop 5: invariant forall k string :: old(k in dom(s.references.allRefs)) ==> k in dom(s.references.allRefs)
 //@   loop 5: invariant schema.Ref.String() != "" ==> ("#" + suri(prefix, name)) in dom(s.references.schemas) && ("#" + suri(prefix, name)) in dom(s.references.allRefs)
-//@   loop 5: invariant forall k in dom(s.references.schemas) :: (old(k in dom(s.references.schemas)) && s.references.schemas[k] == old(s.references.schemas[k])) || schRef(k, s.references.schemas[k], *schema, prefix, name)
 //@   loop 5: invariant (forall n in dom(schema.Definitions) :: forall k string :: forall r spec.Ref :: schRef(k, r, schema.Definitions[n], path.Join(suri(prefix, name), "definitions"), n) ==> k in dom(s.references.schemas) && k in dom(s.references.allRefs))
 //@   loop 5: invariant (forall n in dom(schema.Properties) :: forall k string :: forall r spec.Ref :: schRef(k, r, schema.Properties[n], path.Join(suri(prefix, name), "properties"), n) ==> k in dom(s.references.schemas) && k in dom(s.references.allRefs))
 //@   loop 5: invariant (forall n in dom(schema.PatternProperties) :: forall k string :: forall r spec.Ref :: schRef(k, r, schema.PatternProperties[n], path.Join(suri(prefix, name), "patternProperties"), n) ==> k in dom(s.references.schemas) && k in dom(s.references.allRefs))
@@ -963,7 +958,6 @@ package analysis
 //@   loop 6: invariant forall k string :: old(k in dom(s.references.schemas)) ==> k in dom(s.references.schemas)
 //@   loop 6: invariant forall k string :: old(k in dom(s.references.allRefs)) ==> k in dom(s.references.allRefs)
 //@   loop 6: invariant schema.Ref.String() != "" ==> ("#" + suri(prefix, name)) in dom(s.references.schemas) && ("#" + suri(prefix, name)) in dom(s.references.allRefs)
-//@   loop 6: invariant forall k in dom(s.references.schemas) :: (old(k in dom(s.references.schemas)) && s.references.schemas[k] == old(s.references.schemas[k])) || schRef(k, s.references.schemas[k], *schema, prefix, name)
 //@   loop 6: invariant (forall n in dom(schema.Definitions) :: forall k string :: forall r spec.Ref :: schRef(k, r, schema.Definitions[n], path.Join(suri(prefix, name), "definitions"), n) ==> k in dom(s.references.schemas) && k in dom(s.references.allRefs))
 //@   loop 6: invariant (forall n in dom(schema.Properties) :: forall k string :: forall r spec.Ref :: schRef(k, r, schema.Properties[n], path.Join(suri(prefix, name), "properties"), n) ==> k in dom(s.references.schemas) && k in dom(s.references.allRefs))
 //@   loop 6: invariant (forall n in dom(schema.PatternProperties) :: forall k string :: forall r spec.Ref :: schRef(k, r, schema.PatternProperties[n], path.Join(suri(prefix, name), "patternProperties"), n) ==> k in dom(s.references.schemas) && k in dom(s.references.allRefs))
@@ -973,7 +967,6 @@ package analysis
 //@   loop 7: invariant forall k string :: old(k in dom(s.references.schemas)) ==> k in dom(s.references.schemas)
 //@   loop 7: invariant forall k string :: old(k in dom(s.references.allRefs)) ==> k in dom(s.references.allRefs)
 //@   loop 7: invariant schema.Ref.String() != "" ==> ("#" + suri(prefix, name)) in dom(s.references.schemas) && ("#" + suri(prefix, name)) in dom(s.references.allRefs)
-//@   loop 7: invariant forall k in dom(s.references.schemas) :: (old(k in dom(s.references.schemas)) && s.references.schemas[k] == old(s.references.schemas[k])) || schRef(k, s.references.schemas[k], *schema, prefix, name)
 //@   loop 7: invariant (forall n in dom(schema.Definitions) :: forall k string :: forall r spec.Ref :: schRef(k, r, schema.Definitions[n], path.Join(suri(prefix, name), "definitions"), n) ==> k in dom(s.references.schemas) && k in dom(s.references.allRefs))
 //@   loop 7: invariant (forall n in dom(schema.Properties) :: forall k string :: forall r spec.Ref :: schRef(k, r, schema.Properties[n], path.Join(suri(prefix, name), "properties"), n) ==> k in dom(s.references.schemas) && k in dom(s.references.allRefs))
 //@   loop 7: invariant (forall n in dom(schema.PatternProperties) :: forall k string :: forall r spec.Ref :: schRef(k, r, schema.PatternProperties[n], path.Join(suri(prefix, name), "patternProperties"), n) ==> k in dom(s.references.schemas) && k in dom(s.references.allRefs))
@@ -986,6 +979,20 @@ package analysis
 //@   loop 7: invariant (schema.Items != nil && schema.Items.Schema != nil ==> forall k string :: forall r spec.Ref :: schRef(k, r, *schema.Items.Schema, suri(prefix, name), "items") ==> k in dom(s.references.schemas) && k in dom(s.references.allRefs))
 //@   loop 7: invariant schema.Items != nil
 //@   loop 7: invariant (forall i in 0..idx :: forall k string :: forall r spec.Ref :: schRef(k, r, schema.Items.Schemas[i], path.Join(suri(prefix, name), "items"), strconv.Itoa(i)) ==> k in dom(s.references.schemas) && k in dom(s.references.allRefs))
+
+// soundness as a separate aspect (keeps each query small): every entry is old or belongs to the schema tree
+//@ func (s *Spec) analyzeSchema(name, schema, prefix)
+//@   aspect refsound
+//@   requires s != nil && schema != nil && idxMaps(s)
+//@   modifies map s.allSchemas, map s.allOfs, map s.references.schemas, map s.references.allRefs, map s.patterns.schemas, map s.patterns.allPatterns, map s.enums.schemas, map s.enums.allEnums
+//@   ensures forall k in dom(s.references.schemas) :: (old(k in dom(s.references.schemas)) && s.references.schemas[k] == old(s.references.schemas[k])) || schRef(k, s.references.schemas[k], *schema, prefix, name)
+//@   loop 1: invariant forall k in dom(s.references.schemas) :: (old(k in dom(s.references.schemas)) && s.references.schemas[k] == old(s.references.schemas[k])) || schRef(k, s.references.schemas[k], *schema, prefix, name)
+//@   loop 2: invariant forall k in dom(s.references.schemas) :: (old(k in dom(s.references.schemas)) && s.references.schemas[k] == old(s.references.schemas[k])) || schRef(k, s.references.schemas[k], *schema, prefix, name)
+//@   loop 3: invariant forall k in dom(s.references.schemas) :: (old(k in dom(s.references.schemas)) && s.references.schemas[k] == old(s.references.schemas[k])) || schRef(k, s.references.schemas[k], *schema, prefix, name)
+//@   loop 4: invariant forall k in dom(s.references.schemas) :: (old(k in dom(s.references.schemas)) && s.references.schemas[k] == old(s.references.schemas[k])) || schRef(k, s.references.schemas[k], *schema, prefix, name)
+//@   loop 5: invariant forall k in dom(s.references.schemas) :: (old(k in dom(s.references.schemas)) && s.references.schemas[k] == old(s.references.schemas[k])) || schRef(k, s.references.schemas[k], *schema, prefix, name)
+//@   loop 6: invariant forall k in dom(s.references.schemas) :: (old(k in dom(s.references.schemas)) && s.references.schemas[k] == old(s.references.schemas[k])) || schRef(k, s.references.schemas[k], *schema, prefix, name)
+//@   loop 7: invariant forall k in dom(s.references.schemas) :: (old(k in dom(s.references.schemas)) && s.references.schemas[k] == old(s.references.schemas[k])) || schRef(k, s.references.schemas[k], *schema, prefix, name)
 
 // the items chain and operation parameters (generated by /verif/tools/gen_pe_contracts.py refs)
 //@ fun itRef(k string, p spec.Ref, items *spec.Items, prefix string, name string) bool = items != nil && ((k == "#" + path.Join(prefix, name) && p == items.Ref && p.String() != "") || itRef(k, p, items.Items, path.Join(prefix, name), name))
@@ -1033,6 +1040,7 @@ package analysis
 //@   loop 1: invariant forall kk string :: old(kk in dom(s.references.allRefs)) ==> kk in dom(s.references.allRefs)
 //@   loop 1: invariant res.Ref.String() != "" ==> ("#" + path.Join(prefix, "responses", strconv.Itoa(k))) in dom(s.references.responses) && s.references.responses["#" + path.Join(prefix, "responses", strconv.Itoa(k))] == res.Ref && ("#" + path.Join(prefix, "responses", strconv.Itoa(k))) in dom(s.references.allRefs)
 
+
 // ---------------------------------------------------------------- analyzer.go: the schema index (C12)
 // generated by /verif/tools/gen_schemas_schema.py
 // schAt(k, sv, prefix, name): the schema value sv, indexed under prefix/name, or one of its sub-schemas at any depth,
@@ -1045,26 +1053,22 @@ package analysis
 //@   modifies map s.allSchemas, map s.allOfs, map s.references.schemas, map s.references.allRefs, map s.patterns.schemas, map s.patterns.allPatterns, map s.enums.schemas, map s.enums.allEnums
 //@   ensures forall k string :: schAt(k, *schema, prefix, name) ==> k in dom(s.allSchemas)
 //@   ensures len(schema.AllOf) > 0 ==> ("#" + suri(prefix, name)) in dom(s.allOfs)
-//@   ensures forall k in dom(s.allSchemas) :: old(k in dom(s.allSchemas)) || schAt(k, *schema, prefix, name)
 //@   ensures forall k string :: old(k in dom(s.allSchemas)) ==> k in dom(s.allSchemas)
 //@   ensures forall k string :: old(k in dom(s.allOfs)) ==> k in dom(s.allOfs)
 //@   loop 1: invariant forall k string :: old(k in dom(s.allSchemas)) ==> k in dom(s.allSchemas)
 //@   loop 1: invariant forall k string :: old(k in dom(s.allOfs)) ==> k in dom(s.allOfs)
 //@   loop 1: invariant ("#" + suri(prefix, name)) in dom(s.allSchemas)
-//@   loop 1: invariant forall k in dom(s.allSchemas) :: old(k in dom(s.allSchemas)) || schAt(k, *schema, prefix, name)
 //@   loop 1: invariant (forall n in seen :: forall k string :: schAt(k, schema.Definitions[n], path.Join(suri(prefix, name), "definitions"), n) ==> k in dom(s.allSchemas))
 //@   loop 1: invariant forall n in seen :: n in dom(schema.Definitions)
 //@   loop 2: invariant forall k string :: old(k in dom(s.allSchemas)) ==> k in dom(s.allSchemas)
 //@   loop 2: invariant forall k string :: old(k in dom(s.allOfs)) ==> k in dom(s.allOfs)
 //@   loop 2: invariant ("#" + suri(prefix, name)) in dom(s.allSchemas)
-//@   loop 2: invariant forall k in dom(s.allSchemas) :: old(k in dom(s.allSchemas)) || schAt(k, *schema, prefix, name)
 //@   loop 2: invariant (forall n in dom(schema.Definitions) :: forall k string :: schAt(k, schema.Definitions[n], path.Join(suri(prefix, name), "definitions"), n) ==> k in dom(s.allSchemas))
 //@   loop 2: invariant (forall n in seen :: forall k string :: schAt(k, schema.Properties[n], path.Join(suri(prefix, name), "properties"), n) ==> k in dom(s.allSchemas))
 //@   loop 2: invariant forall n in seen :: n in dom(schema.Properties)
 //@   loop 3: invariant forall k string :: old(k in dom(s.allSchemas)) ==> k in dom(s.allSchemas)
 //@   loop 3: invariant forall k string :: old(k in dom(s.allOfs)) ==> k in dom(s.allOfs)
 //@   loop 3: invariant ("#" + suri(prefix, name)) in dom(s.allSchemas)
-//@   loop 3: invariant forall k in dom(s.allSchemas) :: old(k in dom(s.allSchemas)) || schAt(k, *schema, prefix, name)
 //@   loop 3: invariant (forall n in dom(schema.Definitions) :: forall k string :: schAt(k, schema.Definitions[n], path.Join(suri(prefix, name), "definitions"), n) ==> k in dom(s.allSchemas))
 //@   loop 3: invariant (forall n in dom(schema.Properties) :: forall k string :: schAt(k, schema.Properties[n], path.Join(suri(prefix, name), "properties"), n) ==> k in dom(s.allSchemas))
 //@   loop 3: invariant (forall n in seen :: forall k string :: schAt(k, schema.PatternProperties[n], path.Join(suri(prefix, name), "patternProperties"), n) ==> k in dom(s.allSchemas))
@@ -1072,7 +1076,6 @@ package analysis
 //@   loop 4: invariant forall k string :: old(k in dom(s.allSchemas)) ==> k in dom(s.allSchemas)
 //@   loop 4: invariant forall k string :: old(k in dom(s.allOfs)) ==> k in dom(s.allOfs)
 //@   loop 4: invariant ("#" + suri(prefix, name)) in dom(s.allSchemas)
-//@   loop 4: invariant forall k in dom(s.allSchemas) :: old(k in dom(s.allSchemas)) || schAt(k, *schema, prefix, name)
 //@   loop 4: invariant (forall n in dom(schema.Definitions) :: forall k string :: schAt(k, schema.Definitions[n], path.Join(suri(prefix, name), "definitions"), n) ==> k in dom(s.allSchemas))
 //@   loop 4: invariant (forall n in dom(schema.Properties) :: forall k string :: schAt(k, schema.Properties[n], path.Join(suri(prefix, name), "properties"), n) ==> k in dom(s.allSchemas))
 //@   loop 4: invariant (forall n in dom(schema.PatternProperties) :: forall k string :: schAt(k, schema.PatternProperties[n], path.Join(suri(prefix, name), "patternProperties"), n) ==> k in dom(s.allSchemas))
@@ -1080,35 +1083,49 @@ package analysis
 //@   loop 5: invariant forall k string :: old(k in dom(s.allSchemas)) ==> k in dom(s.allSchemas)
 //@   loop 5: invariant forall k string :: old(k in dom(s.allOfs)) ==> k in dom(s.allOfs)
 //@   loop 5: invariant ("#" + suri(prefix, name)) in dom(s.allSchemas)
-//@   loop 5: invariant forall k in dom(s.allSchemas) :: old(k in dom(s.allSchemas)) || schAt(k, *schema, prefix, name)
 //@   loop 5: invariant (forall n in dom(schema.Definitions) :: forall k string :: schAt(k, schema.Definitions[n], path.Join(suri(prefix, name), "definitions"), n) ==> k in dom(s.allSchemas))
 //@   loop 5: invariant (forall n in dom(schema.Properties) :: forall k string :: schAt(k, schema.Properties[n], path.Join(suri(prefix, name), "properties"), n) ==> k in dom(s.allSchemas))
 //@   loop 5: invariant (forall n in dom(schema.PatternProperties) :: forall k string :: schAt(k, schema.PatternProperties[n], path.Join(suri(prefix, name), "patternProperties"), n) ==> k in dom(s.allSchemas))
 //@   loop 5: invariant (forall i in 0..len(schema.AllOf) :: forall k string :: schAt(k, schema.AllOf[i], path.Join(suri(prefix, name), "allOf"), strconv.Itoa(i)) ==> k in dom(s.allSchemas))
+//@   loop 5: invariant len(schema.AllOf) > 0 ==> ("#" + suri(prefix, name)) in dom(s.allOfs)
 //@   loop 5: invariant (forall i in 0..idx :: forall k string :: schAt(k, schema.AnyOf[i], path.Join(suri(prefix, name), "anyOf"), strconv.Itoa(i)) ==> k in dom(s.allSchemas))
 //@   loop 6: invariant forall k string :: old(k in dom(s.allSchemas)) ==> k in dom(s.allSchemas)
 //@   loop 6: invariant forall k string :: old(k in dom(s.allOfs)) ==> k in dom(s.allOfs)
 //@   loop 6: invariant ("#" + suri(prefix, name)) in dom(s.allSchemas)
-//@   loop 6: invariant forall k in dom(s.allSchemas) :: old(k in dom(s.allSchemas)) || schAt(k, *schema, prefix, name)
 //@   loop 6: invariant (forall n in dom(schema.Definitions) :: forall k string :: schAt(k, schema.Definitions[n], path.Join(suri(prefix, name), "definitions"), n) ==> k in dom(s.allSchemas))
 //@   loop 6: invariant (forall n in dom(schema.Properties) :: forall k string :: schAt(k, schema.Properties[n], path.Join(suri(prefix, name), "properties"), n) ==> k in dom(s.allSchemas))
 //@   loop 6: invariant (forall n in dom(schema.PatternProperties) :: forall k string :: schAt(k, schema.PatternProperties[n], path.Join(suri(prefix, name), "patternProperties"), n) ==> k in dom(s.allSchemas))
 //@   loop 6: invariant (forall i in 0..len(schema.AllOf) :: forall k string :: schAt(k, schema.AllOf[i], path.Join(suri(prefix, name), "allOf"), strconv.Itoa(i)) ==> k in dom(s.allSchemas))
 //@   loop 6: invariant (forall i in 0..len(schema.AnyOf) :: forall k string :: schAt(k, schema.AnyOf[i], path.Join(suri(prefix, name), "anyOf"), strconv.Itoa(i)) ==> k in dom(s.allSchemas))
+//@   loop 6: invariant len(schema.AllOf) > 0 ==> ("#" + suri(prefix, name)) in dom(s.allOfs)
 //@   loop 6: invariant (forall i in 0..idx :: forall k string :: schAt(k, schema.OneOf[i], path.Join(suri(prefix, name), "oneOf"), strconv.Itoa(i)) ==> k in dom(s.allSchemas))
 //@   loop 7: invariant forall k string :: old(k in dom(s.allSchemas)) ==> k in dom(s.allSchemas)
 //@   loop 7: invariant forall k string :: old(k in dom(s.allOfs)) ==> k in dom(s.allOfs)
 //@   loop 7: invariant ("#" + suri(prefix, name)) in dom(s.allSchemas)
-//@   loop 7: invariant forall k in dom(s.allSchemas) :: old(k in dom(s.allSchemas)) || schAt(k, *schema, prefix, name)
 //@   loop 7: invariant (forall n in dom(schema.Definitions) :: forall k string :: schAt(k, schema.Definitions[n], path.Join(suri(prefix, name), "definitions"), n) ==> k in dom(s.allSchemas))
 //@   loop 7: invariant (forall n in dom(schema.Properties) :: forall k string :: schAt(k, schema.Properties[n], path.Join(suri(prefix, name), "properties"), n) ==> k in dom(s.allSchemas))
 //@   loop 7: invariant (forall n in dom(schema.PatternProperties) :: forall k string :: schAt(k, schema.PatternProperties[n], path.Join(suri(prefix, name), "patternProperties"), n) ==> k in dom(s.allSchemas))
 //@   loop 7: invariant (forall i in 0..len(schema.AllOf) :: forall k string :: schAt(k, schema.AllOf[i], path.Join(suri(prefix, name), "allOf"), strconv.Itoa(i)) ==> k in dom(s.allSchemas))
 //@   loop 7: invariant (forall i in 0..len(schema.AnyOf) :: forall k string :: schAt(k, schema.AnyOf[i], path.Join(suri(prefix, name), "anyOf"), strconv.Itoa(i)) ==> k in dom(s.allSchemas))
 //@   loop 7: invariant (forall i in 0..len(schema.OneOf) :: forall k string :: schAt(k, schema.OneOf[i], path.Join(suri(prefix, name), "oneOf"), strconv.Itoa(i)) ==> k in dom(s.allSchemas))
+//@   loop 7: invariant len(schema.AllOf) > 0 ==> ("#" + suri(prefix, name)) in dom(s.allOfs)
 //@   loop 7: invariant (schema.Not != nil ==> forall k string :: schAt(k, *schema.Not, suri(prefix, name), "not") ==> k in dom(s.allSchemas))
 //@   loop 7: invariant (schema.AdditionalProperties != nil && schema.AdditionalProperties.Schema != nil ==> forall k string :: schAt(k, *schema.AdditionalProperties.Schema, suri(prefix, name), "additionalProperties") ==> k in dom(s.allSchemas))
 //@   loop 7: invariant (schema.AdditionalItems != nil && schema.AdditionalItems.Schema != nil ==> forall k string :: schAt(k, *schema.AdditionalItems.Schema, suri(prefix, name), "additionalItems") ==> k in dom(s.allSchemas))
 //@   loop 7: invariant (schema.Items != nil && schema.Items.Schema != nil ==> forall k string :: schAt(k, *schema.Items.Schema, suri(prefix, name), "items") ==> k in dom(s.allSchemas))
 //@   loop 7: invariant schema.Items != nil
 //@   loop 7: invariant (forall i in 0..idx :: forall k string :: schAt(k, schema.Items.Schemas[i], path.Join(suri(prefix, name), "items"), strconv.Itoa(i)) ==> k in dom(s.allSchemas))
+
+// soundness as a separate aspect (keeps each query small): every entry is old or belongs to the schema tree
+//@ func (s *Spec) analyzeSchema(name, schema, prefix)
+//@   aspect schsound
+//@   requires s != nil && schema != nil && idxMaps(s)
+//@   modifies map s.allSchemas, map s.allOfs, map s.references.schemas, map s.references.allRefs, map s.patterns.schemas, map s.patterns.allPatterns, map s.enums.schemas, map s.enums.allEnums
+//@   ensures forall k in dom(s.allSchemas) :: old(k in dom(s.allSchemas)) || schAt(k, *schema, prefix, name)
+//@   loop 1: invariant forall k in dom(s.allSchemas) :: old(k in dom(s.allSchemas)) || schAt(k, *schema, prefix, name)
+//@   loop 2: invariant forall k in dom(s.allSchemas) :: old(k in dom(s.allSchemas)) || schAt(k, *schema, prefix, name)
+//@   loop 3: invariant forall k in dom(s.allSchemas) :: old(k in dom(s.allSchemas)) || schAt(k, *schema, prefix, name)
+//@   loop 4: invariant forall k in dom(s.allSchemas) :: old(k in dom(s.allSchemas)) || schAt(k, *schema, prefix, name)
+//@   loop 5: invariant forall k in dom(s.allSchemas) :: old(k in dom(s.allSchemas)) || schAt(k, *schema, prefix, name)
+//@   loop 6: invariant forall k in dom(s.allSchemas) :: old(k in dom(s.allSchemas)) || schAt(k, *schema, prefix, name)
+//@   loop 7: invariant forall k in dom(s.allSchemas) :: old(k in dom(s.allSchemas)) || schAt(k, *schema, prefix, name)
